@@ -192,3 +192,15 @@ pub fn monitor_update_step_kinds(
 		})
 		.collect()
 }
+
+/// `value_to_self_msat` of a funded channel (the holder's settled balance, excluding pending HTLCs).
+pub fn channel_value_to_self_msat<CM: crate::ln::channelmanager::AChannelManager>(
+	node: &CM, counterparty_node_id: &bitcoin::secp256k1::PublicKey,
+	channel_id: &crate::ln::types::ChannelId,
+) -> Option<u64> {
+	let cm = node.get_cm();
+	let per_peer_state = cm.per_peer_state.read().unwrap();
+	let peer_state = per_peer_state.get(counterparty_node_id)?.lock().unwrap();
+	let chan = peer_state.channel_by_id.get(channel_id)?.as_funded()?;
+	Some(chan.funding.get_value_to_self_msat())
+}
